@@ -26,7 +26,12 @@ RULE = (
     'and every time-pattern table of the compiled program must be unchanged '
     'by execution. (c) Jobs A (complete or stopped) then B run in one '
     'process with the production stdout binding; trace and stdout of B must '
-    'equal B alone in a fresh container. Non-trivial = a sequence in which '
+    'equal B alone in a fresh container. In half of (b) and (c) the '
+    'earlier run ends with statements that leave state behind in every '
+    'register, the unit mode and the saved default colour, and the later '
+    'run begins with statements that show them (a printf of all '
+    'registers, a matrix command whose unstaged cells take the default). '
+    'Non-trivial = a sequence in which '
     'an invalid/truncated text precedes a valid one; a re-execution after a '
     'stop; a job following one that changed unit mode, defined variables or '
     'left output pending. Distinct by the sequence of texts.')
@@ -186,11 +191,33 @@ def execute(world, job, population, stop_after=None, stdout=False):
     return observable(result.trace), stopped[0], result
 
 
+# Statements that leave as much state behind as a script can (every
+# register, the unit mode, the saved default colour), and statements that
+# show that state at the very start of a run.
+SOIL = ('units raw\nhue 11 saturation 22 brightness 33 kelvin 44 '
+        'duration 55 time 66\nset default\nunits rgb\nred 7 green 8 blue 9\n'
+        'units raw\n')
+
+
+def reveal_text(population):
+    lines = ['printf "{} {} {} {} {} {} {} {} {}\\n" hue saturation '
+             'brightness kelvin duration time red green blue']
+    for spec in population:
+        if spec.get('kind') == 'matrix':
+            # cells that are not staged show the saved default colour
+            lines.append('set "{}" row 0'.format(spec['label']))
+            break
+    return '\n'.join(lines) + '\n'
+
+
 def check_reexecution(acc, case, other, plan):
     from bardolph.vm.instruction import Instruction
     from verif.harness import World
     population = case['population']
     text = printer.to_text(case['program'])
+    if case.get('probe'):
+        # shows the state at the start of each run, soils it at the end
+        text = reveal_text(population) + text + '\n' + SOIL
     other_text = printer.to_text(other['program'])
     # A World owns the process-wide injection container: finish with the
     # fresh one (the job compiled from the other text) before building ours.
@@ -313,6 +340,9 @@ def check_job_sequence(acc, case_a, case_b, stop_after):
     population = case_b['population']
     text_a = printer.to_text(case_a['program'])
     text_b = printer.to_text(case_b['program'])
+    if case_a.get('probe'):
+        text_a = text_a + '\n' + SOIL
+        text_b = reveal_text(population) + text_b
     alone_world = World(population, output='stdout')
     alone = alone_world.compile(text_b)
     payload = {'kind': 'jobs', 'a': case_a, 'b': case_b, 'stop': stop_after}
@@ -397,16 +427,22 @@ def run_shard(spec):
                    # arrive between the runs
                    st.lists(st.sampled_from(
                        [['run'], ['run-as-agent'], ['stop-when-idle']]),
-                       min_size=3, max_size=6)))
-        def run(case, other, steps):
+                       min_size=3, max_size=6)),
+               st.booleans())
+        def run(case, other, steps, probe):
+            if probe:
+                case = dict(case, probe=True)
             check_reexecution(acc, case, other, [list(s) for s in steps])
         run()
     else:
         @seed(spec['seed'])
         @progbase.hyp_settings(spec['examples'])
         @given(gen.programs(PROFILE), gen.programs(PROFILE),
-               st.sampled_from([None, None, 1, 1, 1, 2, 2, 3, 5]))
-        def run(case_a, case_b, stop_after):
+               st.sampled_from([None, None, 1, 1, 1, 2, 2, 3, 5]),
+               st.booleans())
+        def run(case_a, case_b, stop_after, probe):
+            if probe:
+                case_a = dict(case_a, probe=True)
             check_job_sequence(acc, case_a, case_b, stop_after)
         run()
     return acc
